@@ -19,9 +19,15 @@ void tree_dump(OUT* o, CMR_SEYMOUR_NODE* node); /* ops_tree.c */
 
 /* ---------- parameter masks ---------- */
 
+/* bit 23: keep the library's defaults (nothing is overridden; the generator sends the default bits for the judge);
+   bit 24 (tu, regular, ctu): pass params = NULL */
+#define LIB_DEFAULTS(mask) (((mask) >> 23) & 1)
+#define NULL_PARAMS(mask) (((mask) >> 24) & 1)
+
 void seymour_params_from_mask(CMR_SEYMOUR_PARAMS* p, unsigned long mask)
 {
   CMRseymourParamsInit(p);
+  if (LIB_DEFAULTS(mask)) return;
   p->stopWhenIrregular = (mask >> 5) & 1;
   p->stopWhenNongraphic = (mask >> 6) & 1;
   p->stopWhenNoncographic = (mask >> 7) & 1;
@@ -46,6 +52,7 @@ void seymour_params_from_mask(CMR_SEYMOUR_PARAMS* p, unsigned long mask)
 void tu_params_from_mask(CMR_TU_PARAMS* p, unsigned long mask)
 {
   CMRtuParamsInit(p);
+  if (LIB_DEFAULTS(mask)) return;
   p->algorithm = (CMR_TU_ALGORITHM) (mask & 3);
   p->ternary = (mask >> 2) & 1;
   p->camionFirst = (mask >> 3) & 1;
@@ -81,11 +88,11 @@ static CMR_ERROR op_ctu(CMR* cmr, TOKS* t, OUT* o)
   if (t->bad) { CMRchrmatFree(cmr, &A); return CMR_OKAY; }
   CMR_CTU_PARAMS params;
   CMRctuParamsInit(&params);
-  tu_params_from_mask(&params.tu, mask);
+  if (!LIB_DEFAULTS(mask)) tu_params_from_mask(&params.tu, mask);
   bool is = false;
   size_t r = 777777, c = 777777; /* sentinel: "not written" */
   uint64_t s0 = sum_chrmat(A);
-  CMR_ERROR e = CMRctuTest(cmr, A, &is, &r, &c, &params, NULL, h_time_limit);
+  CMR_ERROR e = CMRctuTest(cmr, A, &is, &r, &c, NULL_PARAMS(mask) ? NULL : &params, NULL, h_time_limit);
   if (sum_chrmat(A) != s0) h_input_modified = 1;
   if (!e)
   {
@@ -122,8 +129,8 @@ static CMR_ERROR op_tu(CMR* cmr, TOKS* t, OUT* o)
   CMR_SUBMAT* sub = NULL;
   uint64_t s0 = sum_chrmat(A);
   CMR_TU_PARAMS params0 = params;
-  CMR_ERROR e = CMRtuTest(cmr, A, &is, WANT_TREE(mask) ? &root : NULL, WANT_SUB(mask) ? &sub : NULL, &params, NULL,
-    h_time_limit);
+  CMR_ERROR e = CMRtuTest(cmr, A, &is, WANT_TREE(mask) ? &root : NULL, WANT_SUB(mask) ? &sub : NULL,
+    NULL_PARAMS(mask) ? NULL : &params, NULL, h_time_limit);
   if (sum_chrmat(A) != s0) h_input_modified = 1;
   /* the parameter object is an input, too: it may be reused by the caller for the next call */
   if (memcmp(&params0, &params, sizeof(params))) h_input_modified = 1;
@@ -168,8 +175,8 @@ static CMR_ERROR op_regular(CMR* cmr, TOKS* t, OUT* o)
   CMR_MINOR* minor = NULL;
   uint64_t s0 = sum_chrmat(A);
   CMR_REGULAR_PARAMS params0 = params;
-  CMR_ERROR e = CMRregularTest(cmr, A, &is, WANT_TREE(mask) ? &root : NULL, WANT_SUB(mask) ? &minor : NULL, &params,
-    NULL, h_time_limit);
+  CMR_ERROR e = CMRregularTest(cmr, A, &is, WANT_TREE(mask) ? &root : NULL, WANT_SUB(mask) ? &minor : NULL,
+    NULL_PARAMS(mask) ? NULL : &params, NULL, h_time_limit);
   if (sum_chrmat(A) != s0) h_input_modified = 1;
   if (memcmp(&params0, &params, sizeof(params))) h_input_modified = 1;
   int undet = 0;
@@ -304,6 +311,19 @@ static CMR_ERROR op_mat(CMR* cmr, TOKS* t, OUT* o)
     else if (!strcmp(what, "tochr")) e = CMRdblmatToChr(cmr, A, eps, &RC);
     else if (!strcmp(what, "isbinary")) out_str(o, CMRdblmatIsBinary(cmr, A, eps, NULL) ? " yes" : " no");
     else if (!strcmp(what, "isternary")) out_str(o, CMRdblmatIsTernary(cmr, A, eps, NULL) ? " yes" : " no");
+    else if (!strcmp(what, "slice") || !strcmp(what, "permute"))
+    {
+      size_t nr = (size_t) tk_int(t), nc = (size_t) tk_int(t);
+      if (t->bad || (long) (nr + nc) > tk_left(t) || nr > 4096 || nc > 4096) { t->bad = 1; CMRdblmatFree(cmr, &A); return CMR_OKAY; }
+      CMR_SUBMAT* s = NULL;
+      HCALL( CMRsubmatCreate(cmr, nr, nc, &s) );
+      for (size_t i = 0; i < nr; ++i) s->rows[i] = tk_idx(t);
+      for (size_t i = 0; i < nc; ++i) s->columns[i] = tk_idx(t);
+      /* permute: nr==0 resp. nc==0 encodes "NULL = identity" */
+      if (!strcmp(what, "slice")) e = CMRdblmatSlice(cmr, A, s, &R);
+      else e = CMRdblmatPermute(cmr, A, nr ? s->rows : NULL, nc ? s->columns : NULL, &R);
+      CMRsubmatFree(cmr, &s);
+    }
     else t->bad = 1;
     if (!e && R)
     {
@@ -336,6 +356,18 @@ static CMR_ERROR op_mat(CMR* cmr, TOKS* t, OUT* o)
     else if (!strcmp(what, "tochr")) e = CMRintmatToChr(cmr, A, &RC);
     else if (!strcmp(what, "isbinary")) out_str(o, CMRintmatIsBinary(cmr, A, NULL) ? " yes" : " no");
     else if (!strcmp(what, "isternary")) out_str(o, CMRintmatIsTernary(cmr, A, NULL) ? " yes" : " no");
+    else if (!strcmp(what, "slice") || !strcmp(what, "permute"))
+    {
+      size_t nr = (size_t) tk_int(t), nc = (size_t) tk_int(t);
+      if (t->bad || (long) (nr + nc) > tk_left(t) || nr > 4096 || nc > 4096) { t->bad = 1; CMRintmatFree(cmr, &A); return CMR_OKAY; }
+      CMR_SUBMAT* s = NULL;
+      HCALL( CMRsubmatCreate(cmr, nr, nc, &s) );
+      for (size_t i = 0; i < nr; ++i) s->rows[i] = tk_idx(t);
+      for (size_t i = 0; i < nc; ++i) s->columns[i] = tk_idx(t);
+      if (!strcmp(what, "slice")) e = CMRintmatSlice(cmr, A, s, &R);
+      else e = CMRintmatPermute(cmr, A, nr ? s->rows : NULL, nc ? s->columns : NULL, &R);
+      CMRsubmatFree(cmr, &s);
+    }
     else t->bad = 1;
     if (sum_intmat(A) != s0) h_input_modified = 1;
     if (!e && R) out_intmat(o, R);
@@ -640,11 +672,11 @@ static CMR_ERROR op_balanced(CMR* cmr, TOKS* t, OUT* o)
   if (t->bad) { CMRchrmatFree(cmr, &A); return CMR_OKAY; }
   CMR_BALANCED_PARAMS params;
   CMRbalancedParamsInit(&params);
-  params.algorithm = (CMR_BALANCED_ALGORITHM) alg;
-  params.seriesParallel = sp;
+  /* alg 3: the library's defaults, nothing overridden; alg 4: params = NULL */
+  if (alg < 3) { params.algorithm = (CMR_BALANCED_ALGORITHM) alg; params.seriesParallel = sp; }
   bool is = preset; CMR_SUBMAT* sub = NULL;
   uint64_t s0 = sum_chrmat(A);
-  CMR_ERROR e = CMRbalancedTest(cmr, A, &is, wantsub ? &sub : NULL, &params, NULL, h_time_limit);
+  CMR_ERROR e = CMRbalancedTest(cmr, A, &is, wantsub ? &sub : NULL, alg == 4 ? NULL : &params, NULL, h_time_limit);
   if (sum_chrmat(A) != s0) h_input_modified = 1;
   if (!e) { out_str(o, is ? " yes" : " no"); out_submat(o, sub); }
   else out_fmt(o, " outs=%d", sub ? 1 : 0);
